@@ -355,6 +355,22 @@ let on_proc (idx : int) (msg : message) (obs : string) : unit =
                  | _ -> ())
             | None -> ())
        | None -> ());
+      (* C12: a member removed by a liveness evaluation (remembered with its heartbeat at removal) is
+         recreated only by a digest heartbeat strictly higher than the remembered one *)
+      (match before with
+       | Some b ->
+           let dg_hb i = match msg with
+             | Syn (_, dg) | SynAck (dg, _) ->
+                 (match List.find_opt (fun (j, _) -> id_eqb i j) dg with Some (_, g) -> Some g.g_hb | None -> None)
+             | _ -> None in
+           List.iter
+             (fun (i, hb_removed) ->
+               if nm_get i b.nodes = None && nm_get i o.snap.nodes <> None then
+                 check "C12"
+                   (match dg_hb i with Some hb -> N.compare hb_removed hb = Lt | None -> false)
+                   ("member " ^ token_of_id i ^ ", removed by a liveness evaluation, was recreated by a message whose digest does not carry a strictly higher heartbeat than the one known at removal"))
+             b.gcn
+       | None -> ());
       (* C11: a heartbeat that is not above the stored one is a no-op on the stored heartbeat (copies
          a delta of the same message may reset are left out) *)
       (match msg, before with
